@@ -419,8 +419,9 @@ void fiber_fd_closed(int fd) {
     return;
   }
 
-  assert(fd >= 0);
-  assert(fd < max_fd);
+  if (fd < 0 || fd >= max_fd) {
+    return;  // not a descriptor we can know about; close() reports EBADF
+  }
   fd_wait_info_t* const info = &wait_info[fd];
   fiber_spinlock_lock(&info->spinlock);
 #if defined(__linux__)
